@@ -10,7 +10,7 @@
    from variables passed as arguments, "not an array" for expression
    arguments; [sat P] = some assignment satisfies all of them. *)
 From Verif Require Import Lib.Base Model.Resolver Proofs.Resolver Proofs.ResolverSound
-  Proofs.ResolverExact Proofs.ResolverCutoff.
+  Proofs.ResolverExact Proofs.ResolverOrder Proofs.ResolverCutoff.
 
 (* SOUND.  Whatever the map iteration order: if the resolver accepts, the types
    it returns satisfy every usage constraint, and every demand the compiler
@@ -42,6 +42,45 @@ Theorem C16_exact_partial : forall (pi : oracle) (P : program),
   ((exists F, resolve pi P = ROk F) <-> sat P).
 Proof. exact (resolve_exact cutoff). Qed.
 Print Assumptions C16_exact_partial.
+
+(* ORDER INDEPENDENT (partial: same guard).  Reordering the function definitions
+   and the BEGIN/action/END events in any way, and any change of Go's map
+   iteration order, changes neither the verdict nor which variables and
+   parameters are arrays. *)
+Theorem C16_order_independent_partial : forall (pi pi' : oracle) (P P' : program),
+  perm_oracle pi -> perm_oracle pi' -> wf P = true -> reordered P P' ->
+  resolve pi P <> RErr ETooManyIter -> resolve pi P <> RFuel ->
+  resolve pi' P' <> RErr ETooManyIter -> resolve pi' P' <> RFuel ->
+  ((exists F, resolve pi P = ROk F) <-> (exists F', resolve pi' P' = ROk F')) /\
+  (forall F F', resolve pi P = ROk F -> resolve pi' P' = ROk F' ->
+                forall k, rho_of (fin_types F') k = rho_of (fin_types F) k).
+Proof. exact (reorder_independent cutoff). Qed.
+Print Assumptions C16_order_independent_partial.
+
+(* LEAST SOLUTION / RENAMING, abstractly: if the constraint systems of two
+   programs correspond under a bijection phi of the type variables (a
+   consistent renaming induces one), accepted runs give corresponding types,
+   whatever the orders in which the functions were processed ... *)
+Theorem C16_types_correspond : forall (P P' : program) (phi psi : key -> key),
+  (forall k', phi (psi k') = k') -> (forall k, psi (phi k) = k) ->
+  (forall rho, solution P rho <-> solution P' (fun k' => rho (psi k'))) ->
+  forall cut cut' order order' F F',
+  names_ok P -> names_ok P' -> covers P order -> covers P' order' ->
+  resolve_order cut order P = ROk F -> resolve_order cut' order' P' = ROk F' ->
+  forall k, rho_of (fin_types F') (phi k) = rho_of (fin_types F) k.
+Proof. exact types_correspond. Qed.
+Print Assumptions C16_types_correspond.
+
+(* ... and the verdicts agree (same guard). *)
+Theorem C16_verdict_correspond_partial : forall (P P' : program) (phi psi : key -> key),
+  (forall k', phi (psi k') = k') ->
+  (forall rho, solution P rho <-> solution P' (fun k' => rho (psi k'))) ->
+  forall cut cut' order order',
+  wf P = true -> wf P' = true -> covers P order -> covers P' order' ->
+  resolve_order cut order P <> RErr ETooManyIter -> resolve_order cut' order' P' <> RErr ETooManyIter ->
+  ((exists F, resolve_order cut order P = ROk F) <-> (exists F', resolve_order cut' order' P' = ROk F')).
+Proof. exact verdict_correspond. Qed.
+Print Assumptions C16_verdict_correspond_partial.
 
 (* The full statement without the guard is false for the code as it is
    (finding F-C16-1): 101 functions forwarding one parameter, the array known
